@@ -48,9 +48,11 @@ class Gen:
     def task(self, d):
         r = self.r
         items = []
-        n = 0 if self.budget <= 0 else r.choice([0, 1, 1, 1, 2, 2, 3])
-        if d == self.maxdepth and r.chance(1, 2):
+        n = 0 if self.budget <= 0 else r.choice([0, 1, 1, 1, 2, 2, 3]) if d > 0 else r.choice([0, 1, 1, 2, 2, 3, 4])
+        if d == self.maxdepth and d > 0 and r.chance(1, 2):
             n = 0
+        if d == 0 and n == 0 and r.chance(11, 12):
+            n = r.rng(1, 3)
         for _ in range(n):
             if r.chance(self.p_other, 10):
                 items.append(('o',)); self.budget -= 1
@@ -64,8 +66,12 @@ class Gen:
         tag = 'B' if r.chance(1, 3) else 'S'
         items = []
         n = 0 if self.budget <= 0 else r.rng(0, self.fan)
-        for _ in range(n):
+        if d == 0 and nest == 0 and self.maxdepth > 0 and n == 0 and self.budget > 0 and r.chance(3, 4):
+            n = 1
+        for k in range(n):
             x = r.below(10)
+            if d == 0 and nest == 0 and k == 0 and self.maxdepth > 0 and r.chance(3, 4):
+                x = 9
             if x < self.p_other:
                 items.append(('o',)); self.budget -= 1
             elif x < self.p_other + 1 and nest < 2:
@@ -129,8 +135,8 @@ class Gen:
 def gen_tree(r, size_class):
     """returns (nw, tree token list)"""
     nw = r.rng(1, 8)
-    maxdepth = r.choice([0, 1, 2, 2, 3, 3, 4, 5])
-    fan = r.choice([0, 1, 2, 3, 4, 6])
+    maxdepth = r.choice([0, 1, 2, 3, 3, 4, 4, 5])
+    fan = r.choice([0, 1, 2, 2, 3, 3, 4, 6])
     budget = {0: 12, 1: 60, 2: 250, 3: 1200}[size_class]
     sticky = r.choice([100, 100, 95, 80, 50, 0])
     g = Gen(r, maxdepth, fan, nw, budget, sticky, p_other=r.choice([0, 0, 1, 2, 4]), zero_dur=r.choice([0, 1, 3, 10]))
@@ -564,7 +570,7 @@ def run(ctx):
     if ctx.thorough:
         cases += make_cases(ctx, 2500, [0, 1, 1, 2, 2, 2, 3])
     else:
-        cases += make_cases(ctx, 260, [0, 1, 1, 2, 2])
+        cases += make_cases(ctx, 380, [0, 1, 1, 2, 2, 2])
     return judge(ctx, cases, exe, drv, broken, log)
 
 
